@@ -293,6 +293,48 @@ class HeaderSanitised(Harness):
         yield 'header-shown-in-printable-ascii-only', s_implies(s_not(printable), ok)
 
 
+class FlagLine(Harness):
+    """real Banner.parse + real output(): an identification line with one arbitrary character in its software part, for protocol 2.0, 1.99 and 1.5: the report
+    carries the line '(gen) banner contains non-printable ASCII' exactly when the character is outside printable ASCII, whatever the protocol version."""
+    prop, ob = PROP, 'O2'
+    width = 64
+
+    def __init__(self, proto):
+        self.proto = proto
+        self.name = 'flagline-%s' % proto
+
+    def params(self):
+        return {'proto': self.proto}
+
+    def inputs(self):
+        return {'c': zx.fresh_str('c', 1, ((0x01, 0x09), (0x0B, 0x0C), (0x0E, 0x1F), (0x21, 0xFFFF)))}      # not NUL / LF / CR / space (line and field structure)
+
+    def run(self, M, inp):
+        from props import outlib as OL
+        line = 'SSH-' + self.proto + '-ab' + inp['c'] + 'cd'
+        b = guarded(M.banner.Banner.parse, line)
+        if isinstance(b, Exc) or b is None:
+            return {'exc': b if isinstance(b, Exc) else Exc('NoBanner', 'not accepted')}
+        OL.fresh_tables(M)
+        aconf = M.auditconf.AuditConf('h', 22)
+        out = M.outputbuffer.OutputBuffer()
+        out.use_colors = False
+        from props.c06 import make_kex
+        r = guarded(M.ssh_audit.output, out, aconf, b, [], None, make_kex(M, {c: ['x'] for c in OL.CATS}))
+        if isinstance(r, Exc):
+            return {'exc': r}
+        lines = list(out.buffer) + list(out.section)
+        return {'flag': sum(1 for ln in lines if OL._starts(ln, '(gen) banner contains non-printable ASCII')), 'ret': r}
+
+    def check(self, inp, obs):
+        if 'exc' in obs:
+            yield 'no-exception', False
+            return
+        c = zx.shims.z_ord(inp['c'])
+        printable = s_and(c >= 32, c <= 126)
+        yield 'flag-line-iff-non-printable', s_and(s_implies(printable, obs['flag'] == 0), s_implies(s_not(printable), obs['flag'] == 1))
+
+
 class AuditHeader(Harness):
     """the whole real audit(): a server sends header lines (symbolic printable text) before its identification string; the probes that follow reconnect several
     times (each probe connection is answered with banner + KEXINIT and closed).  The report still shows exactly the header text of the first connection and the
@@ -332,7 +374,11 @@ class AuditHeader(Harness):
         hdr = None
         if len(i0) == 1:
             hdr = [flat[i0[0]][len('(gen) header: '):]] + flat[i0[0] + 1:i0[0] + self.nlines]
-        return {'hdr': hdr, 'nhdr': len(i0), 'banner': [ln for ln in flat if OL._starts(ln, '(gen) banner: ')], 'nprobe': len(r['net'].made) - 1}
+        # a second peer, audited afterwards in the same process, sends no header text at all
+        ban2 = b'SSH-2.0-' + inp['sw'].encode('utf-8') + b'\r\n'
+        r2 = AE.run_audit(M, [AE.Conn([ban2, pk])] + [AE.Conn([ban2, pk], 'close') for _ in range(14)])
+        leak = isinstance(r2['ret'], Exc) or any(OL._starts(ln, '(gen) header: ') for ln in r2['lines'])
+        return {'hdr': hdr, 'nhdr': len(i0), 'banner': [ln for ln in flat if OL._starts(ln, '(gen) banner: ')], 'nprobe': len(r['net'].made) - 1, 'leak': leak}
 
     def check(self, inp, obs):
         if 'exc' in obs:
@@ -347,6 +393,7 @@ class AuditHeader(Harness):
                 ok = s_and(*[g == 'notice ' + h for g, h in zip(obs['hdr'], inp['hdr'])])
             yield 'header-text-as-sent-after-the-probes', ok
         yield 'banner-as-sent-after-the-probes', len(obs['banner']) == 1 and bool(obs['banner'][0] == '(gen) banner: SSH-2.0-' + inp['sw'])
+        yield 'header-text-does-not-appear-in-the-next-peers-report', not obs['leak']
 
 
 class Product(Harness):
@@ -468,6 +515,8 @@ def tasks(tier):
     for n in ((0, 1, 2) if q else (0, 1, 2, 3)):
         T.append(AuditHeader(n))
     T.append(HeaderSanitised(False))
+    for proto in ('2.0', '1.99', '1.5'):
+        T.append(FlagLine(proto))
     return T
 
 
@@ -481,6 +530,8 @@ def harness_by_name(name, params):
         return Header(params['hlens'], params['eol'], params['split'], params.get('dom', 'any'))
     if k == 'product':
         return Product(params['fam'], params['shape'], params['npatch'])
+    if k == 'flagline':
+        return FlagLine(params['proto'])
     if k == 'headersanitised':
         return HeaderSanitised(params['json'])
     if k == 'auditheader':
